@@ -70,6 +70,18 @@ def stmt_body(kind, role, sid, children, ctx):
     elif role == "read_then_assign":
         L.append("log(%d, 'r0', val(x))" % sid)
         L.append("x = %s" % ctx.val())
+    # binding sites that may not bind at run time (symbolic): a later read then falls back to the
+    # enclosing binding (class body -> globals) instead of the scope's own
+    elif role == "cond_assign":
+        L.append("if %s > 0:" % ctx.val())
+        L.append("    x = %s" % ctx.val())
+    elif role == "for0":
+        L.append("for x in []:")
+        L.append("    pass")
+    elif role == "cond_for":
+        n = ctx.val()
+        L.append("for x in [%s] * (%s > 0):" % (ctx.val(), n))
+        L.append("    pass")
     mentions = role not in ("none",)
     if mentions and role != "comp":
         L.append("%slog(%d, 'pre', val(x))" % (inner_prefix, sid))
@@ -134,8 +146,26 @@ def scope(node, ctx):
             expr = "[(log(%d, 'ir', q)%s) for q in [val(x)]]" % (sid, inner)
         else:
             expr = "[(log(%d, 'in', q)%s) for q in [%s]]" % (sid, inner, ctx.val())
+        if GEN_STYLE[0]:
+            # generator expression: still a scope of its own on 3.12+ (list comprehensions are inlined)
+            expr = "list(" + expr[1:-1] + ")"
         return [], expr
     raise ValueError(kind)
+
+
+GEN_STYLE = [False]
+
+
+def has_comp(children):
+    return any(k == "K" or has_comp(ch) for k, _, ch in children)
+
+
+def render_gen(mrole, children):
+    GEN_STYLE[0] = True
+    try:
+        return render(mrole, children)
+    finally:
+        GEN_STYLE[0] = False
 
 
 def render(mrole, children):
@@ -230,3 +260,40 @@ def nested_expr_siblings():
                         else:
                             yield mrole, [("F", r1, [cap, mid])]
                             yield mrole, [("F", r1, [mid, cap])]
+
+
+def decl_chains():
+    """depth-3 chains of functions/classes restricted to the roles that matter for declarations
+    (bind, global, nonlocal, read), with at least one global/nonlocal declaration somewhere: the
+    full depth-3 universe (435 010 trees) is only sampled, these are enumerated"""
+    FI = ["assign", "param", "global_assign", "global_read", "nonlocal_assign", "nonlocal_read", "read", "none"]
+    CI = ["assign", "global_assign", "nonlocal_assign", "read", "none"]
+    lv = [("F", r) for r in FI] + [("C", r) for r in CI]
+    for mrole in ("none", "assign"):
+        for a in lv:
+            for b in lv:
+                for c in lv:
+                    roles = (a[1], b[1], c[1])
+                    if not any(r.startswith(("global_", "nonlocal_")) for r in roles):
+                        continue
+                    if c[1] == "none" or (a[1] == "none" and b[1] == "none"):
+                        continue
+                    yield mrole, [(a[0], a[1], [(b[0], b[1], [(c[0], c[1], [])])])]
+
+
+def unbound_fallback():
+    """a class body (at module level or in a function) whose binding of x may not happen at run
+    time, read afterwards by the class body itself and by scopes nested in it"""
+    leaves = [None, ("F", "read", []), ("L", "read", []), ("K", "read", []), ("K", "iter_read", []), ("C", "read", [])]
+    for mrole in ("none", "assign", "def"):
+        for crole in ("cond_assign", "for0", "cond_for"):
+            for leaf in leaves:
+                ch = [leaf] if leaf else []
+                yield mrole, [("C", crole, ch)]
+                for frole in ("none", "assign", "param"):
+                    yield mrole, [("F", frole, [("C", crole, ch)])]
+        # the same at function level captured by an inner function (the variable lives in the helper
+        # dict; reading it while unbound raises in both programs, binding it must be seen inside)
+        for frole in ("cond_assign", "cond_for"):
+            for leaf in leaves[1:]:
+                yield mrole, [("F", frole, [leaf])]
